@@ -21,7 +21,7 @@ def spec(chk):
         cfgs=[
             dict(name="pk", objs=2, maxsp=1, depth=7 if q else 8, ideal_depth=8 if q else 9, eoc=True, acts=acts,
                  random=200 if q else 2000, sim=(40, 20) if q else (600, 30)),
-            dict(name="pk3", objs=3, maxsp=1, depth=5 if q else 7, ideal_depth=6 if q else 8, eoc=True, acts=acts + (["Sp", "Close"] if not q else []),
+            dict(name="pk3", objs=3, maxsp=1, depth=5 if q else 6, ideal_depth=6 if q else 7, eoc=True, acts=acts + (["Sp", "Close"] if not q else []),
                  random=100 if q else 1000),
         ],
         mech_invs=MECH_INVS, mech_props=[], abs_invs=ABS_INVS, abs_props=ABS_PROPS,
